@@ -130,6 +130,8 @@ META = dict(
     ),
 )
 
+SHARD_TIMEOUT = dict(quick=600, thorough=3000)  # CPU seconds per shard
+
 CONFIGS = (
     [("o2m", c, s) for c in ("list", "set", "dict") for s in ("bp", "backref")]
     + [("o2o", None, s) for s in ("bp", "backref")]
